@@ -4,19 +4,57 @@ use serde_json::Value;
 
 pub const LIB_NAME: &str = "m2";
 pub const LIB_TEXT: &str = "pub fn a(x) { x }\npub fn c() { 1 }\nfn p() { 2 }\npub type A { A(a: Int) C }\npub const k = 1\npub type T { W }\ntype P { Q }\n";
+/// The second library module: its path shares the last segment with the first, it declares the same names (ids 3001..)
+/// in another order, and it uses them itself in the extra function `s` (so a rename has to edit uses inside the library too).
+pub const SUB_NAME: &str = "sub/m2";
+pub const SUB_TEXT: &str = "pub const k = 2\npub type T { W }\npub fn c() { 3 }\ntype P { Q }\npub type A { C A(a: Int) }\nfn p() { 4 }\npub fn a(x) { x }\npub fn s(y: A) -> T { let _ = #(c(), a(k), A(a: 1), C, y) W }\n";
 
-/// (declaration id in the specification, byte offset of the declaring name token in LIB_TEXT, length)
-pub fn lib_decls() -> Vec<(u64, usize, usize)> {
-    let f = |pat: &str, skip: usize| LIB_TEXT.find(pat).unwrap() + skip;
+/// The library modules of a GleamGen workspace: (module path, text, id of the module in the specification); the module with
+/// index i is FileId(1 + i).
+pub const LIBS: [(&str, &str, u64); 2] = [(LIB_NAME, LIB_TEXT, 2000), (SUB_NAME, SUB_TEXT, 3000)];
+
+/// index into LIBS of the module that declares the specification's id
+pub fn lib_of(id: u64) -> usize {
+    if id >= 3000 { 1 } else { 0 }
+}
+
+/// (declaration id in the specification, byte offset of the declaring name token in the library's text, length)
+pub fn lib_decls_of(lib: usize) -> Vec<(u64, usize, usize)> {
+    let (_, text, base) = LIBS[lib];
+    let f = |pat: &str, skip: usize| text.find(pat).unwrap() + skip;
     vec![
-        (2001, f("fn a(", 3), 1),
-        (2002, f("fn c(", 3), 1),
-        (2003, f("A(a: Int)", 0), 1),
-        (2004, f(" C }", 1), 1),
-        (2005, f("const k", 6), 1),
-        (2006, f("type T {", 5), 1),
-        (2007, f("type A {", 5), 1),
-        (2008, f("A(a: Int)", 2), 1),
+        (base + 1, f("fn a(", 3), 1),
+        (base + 2, f("fn c(", 3), 1),
+        (base + 3, f("A(a: Int)", 0), 1),
+        (base + 4, f(" C ", 1), 1),
+        (base + 5, f("const k", 6), 1),
+        (base + 6, f("type T {", 5), 1),
+        (base + 7, f("type A {", 5), 1),
+        (base + 8, f("A(a: Int)", 2), 1),
+    ]
+}
+
+/// the first library module's declarations (ids 2001..)
+pub fn lib_decls() -> Vec<(u64, usize, usize)> {
+    lib_decls_of(0)
+}
+
+/// (declaration id, byte offset) of every USE of a library declaration inside the library's own text
+pub fn lib_uses_of(lib: usize) -> Vec<(u64, usize)> {
+    if lib != 1 {
+        return vec![];
+    }
+    let body = SUB_TEXT.find("pub fn s(").unwrap();
+    let f = |pat: &str, skip: usize| body + SUB_TEXT[body..].find(pat).unwrap() + skip;
+    vec![
+        (3001, f("a(k)", 0)),
+        (3002, f("c()", 0)),
+        (3003, f("A(a: 1)", 0)),
+        (3004, f(" C,", 1)),
+        (3005, f("a(k)", 2)),
+        (3006, f("-> T", 3)),
+        (3007, f("y: A", 3)),
+        (3008, f("A(a: 1)", 2)),
     ]
 }
 
